@@ -34,6 +34,11 @@ def run_one(m):
     try:
         wt = os.path.join(tmp, "repo")
         copy_tree(wt)
+        if m.get("base"):
+            # a behaviour-preserving refactoring applied first: the seeded change is made to the *refactored* code
+            r = subprocess.run(["git", "apply", "--unsafe-paths", "--directory", wt, os.path.join(VERIF, m["base"])], capture_output=True, text=True, cwd=tmp)
+            if r.returncode != 0:
+                return dict(id=m["id"], status="SKIPPED", why="base refactoring does not apply: " + (r.stderr or r.stdout)[-200:], s=0)
         for ed in m["edits"]:
             p = os.path.join(wt, ed["file"])
             s = open(p).read()
@@ -76,7 +81,7 @@ def main(argv):
         ps = m["property"] if isinstance(m["property"], list) else [m["property"]]
         if props and not (set(ps) & set(props)):
             continue
-        if only and m["id"] != only:
+        if only and m["id"] != only and not (only.endswith("-") and m["id"].startswith(only)):
             continue
         sel.append(m)
     from rules import facts as F
